@@ -63,6 +63,15 @@ def instr_cases(rng, n):
     for a in range(8):
         for e in (0, 15, 16, 31, 32, 33, 0x7FFF, 0xFFFE, 0xFFFF):
             out.append(["interp gen %x" % rng.bits(40), "interp step %x %x" % (0x0028 | a, e)])
+    # shift counts taken from a register: every shift-by-sv instruction with the count at and around the widths
+    # (16, 32, 40 and the ends of the 16-bit range), both shift modes, negative and positive operands
+    shifters = [w for w in ws if keys[w][0].startswith(("shfc", "movs_", "movs", "shfi", "movsi"))]
+    for sv in (0, 1, 15, 16, 17, 31, 32, 33, 39, 40, 41, 0x7FFF, 0x8000, 0xFFFF, 0xFFF0, 0xFFE0, 0xFFD9, 0xFFD8, 0xFFD7, 0xFFC0):
+        for w in ([rng.choice(shifters) for _ in range(6)] if shifters else []):
+            out.append(["interp gen %x" % rng.bits(40), "interp poke sv %x" % sv, "interp poke s %x" % rng.below(2),
+                        "interp poke a0 %x" % rng.choice([0xFFFFFF8000000001, 0x7FFFFFFFFF, 0xFFFFFFFFFFFFFFFF, 1, rng.bits(40)]),
+                        "interp poke a1 %x" % rng.choice([0xFFFFFFD1FC9138C6, 0x12345678, 0xFFFFFF8000000000]),
+                        "interp step %x %x" % (w, rng.biased(16))])
     for _ in range(n):
         w = rng.choice(ws)
         pk = []
